@@ -10,9 +10,10 @@ from .visualisation.dimensionality_reduction import DimensionalityReducer
 def get_individual_id(individual: Individual) -> str:
     """
     Tree structure in `treelib` requires identifiers for nodes. This function returns
-    a string representation of the individual's genome, which usually is unique for each individual.
+    the individual's uuid: distinct genomes can share their string representation
+    (numpy prints 8 significant digits), which silently dropped individuals of tightly converged populations.
     """
-    return str(individual.genome)
+    return str(individual.uuid)
 
 
 class NearestBetterClustering:
@@ -91,7 +92,9 @@ class NearestBetterClustering:
 
     def _find_root_nodes(self) -> list[Node]:
         nodes = self.tree.all_nodes()
-        mean_distance = np.mean(self.distances)
+        # With a single individual there are no nearest-better distances; the best one is still a cluster seed.
+        distances = self.distances
+        mean_distance = np.mean(distances) if distances else 0.0
         correction_factor = 1 if not self.use_correction else self._get_correction_factor()
         return [
             node for node in nodes if node.data["distance"] > mean_distance * self.distance_factor * correction_factor
